@@ -129,6 +129,7 @@ package quickfix
 //@ spec tsgrammar(d []byte) bool = (len(d) == 17 || len(d) == 21 || len(d) == 24 || len(d) == 27) && tsprefixb(d) && (len(d) > 17 ==> d[17] == 46 && (forall i :: 18 <= i && i < len(d) ==> bdig(d, i)))
 
 //@ func (f *FIXUTCTimestamp) Read [C09,C14]
+//@   modifies f.*, fresh P.string, fresh E.any, fresh P.sl.uint8
 //@   ensures @grammar err == nil ==> tsgrammar(bytes)
 //@   ensures @precision err == nil ==> f.Precision == (len(bytes) == 17 ? Seconds : (len(bytes) == 21 ? Millis : (len(bytes) == 24 ? Micros : Nanos)))
 //@   ensures @length len(bytes) != 17 && len(bytes) != 21 && len(bytes) != 24 && len(bytes) != 27 ==> err != nil
@@ -358,6 +359,7 @@ package quickfix
 //@   modifies fresh H.quickfix.messageRejectError.*, fresh P.quickfix.Tag
 
 //@ func (m FieldMap) GetInt [C09,C11]
+//@   modifies fresh H.quickfix.messageRejectError.*, fresh P.quickfix.Tag, fresh P.quickfix.FIXString, fresh P.quickfix.FIXBoolean, fresh P.quickfix.FIXInt, fresh H.quickfix.FIXUTCTimestamp.*, fresh H.time.Time.*, fresh P.string, fresh E.any, fresh P.sl.uint8
 //@   requires fmvals(m)
 //@   ensures @ok (result1 == nil) <==> (has(m.tagLookup, tag) && isint(m.tagLookup[tag][0].value))
 //@   ensures @value result1 == nil ==> result0 == intval(m.tagLookup[tag][0].value)
@@ -365,6 +367,7 @@ package quickfix
 //@   ensures @malformed has(m.tagLookup, tag) && !isint(m.tagLookup[tag][0].value) ==> mre(result1, 6, tag)
 
 //@ func (m FieldMap) getIntNoLock [C09,C11]
+//@   modifies fresh H.quickfix.messageRejectError.*, fresh P.quickfix.Tag, fresh P.quickfix.FIXString, fresh P.quickfix.FIXBoolean, fresh P.quickfix.FIXInt, fresh H.quickfix.FIXUTCTimestamp.*, fresh H.time.Time.*, fresh P.string, fresh E.any, fresh P.sl.uint8
 //@   requires fmvals(m)
 //@   ensures @ok (result1 == nil) <==> (has(m.tagLookup, tag) && isint(m.tagLookup[tag][0].value))
 //@   ensures @value result1 == nil ==> result0 == intval(m.tagLookup[tag][0].value)
@@ -384,21 +387,25 @@ package quickfix
 //@   modifies *
 
 //@ func (m FieldMap) GetBool [C09,C11]
+//@   modifies fresh H.quickfix.messageRejectError.*, fresh P.quickfix.Tag, fresh P.quickfix.FIXString, fresh P.quickfix.FIXBoolean, fresh P.quickfix.FIXInt, fresh H.quickfix.FIXUTCTimestamp.*, fresh H.time.Time.*, fresh P.string, fresh E.any, fresh P.sl.uint8
 //@   requires fmvals(m)
 //@   ensures @ok (result1 == nil) <==> (has(m.tagLookup, tag) && len(m.tagLookup[tag][0].value) == 1 && (m.tagLookup[tag][0].value[0] == 89 || m.tagLookup[tag][0].value[0] == 78))
 //@   ensures @value result1 == nil ==> (result0 <==> m.tagLookup[tag][0].value[0] == 89)
 
 //@ func (m FieldMap) GetString [C09,C11]
+//@   modifies fresh H.quickfix.messageRejectError.*, fresh P.quickfix.Tag, fresh P.quickfix.FIXString, fresh P.quickfix.FIXBoolean, fresh P.quickfix.FIXInt, fresh H.quickfix.FIXUTCTimestamp.*, fresh H.time.Time.*, fresh P.string, fresh E.any, fresh P.sl.uint8
 //@   requires fmvals(m)
 //@   ensures @ok (result1 == nil) <==> has(m.tagLookup, tag)
 //@   ensures @value result1 == nil ==> result0 == string(m.tagLookup[tag][0].value)
 
 //@ func (m FieldMap) getStringNoLock [C09,C11]
+//@   modifies fresh H.quickfix.messageRejectError.*, fresh P.quickfix.Tag, fresh P.quickfix.FIXString, fresh P.quickfix.FIXBoolean, fresh P.quickfix.FIXInt, fresh H.quickfix.FIXUTCTimestamp.*, fresh H.time.Time.*, fresh P.string, fresh E.any, fresh P.sl.uint8
 //@   requires fmvals(m)
 //@   ensures @ok (result1 == nil) <==> has(m.tagLookup, tag)
 //@   ensures @value result1 == nil ==> result0 == string(m.tagLookup[tag][0].value)
 
 //@ func (m FieldMap) GetTime [C09,C11]
+//@   modifies fresh H.quickfix.messageRejectError.*, fresh P.quickfix.Tag, fresh P.quickfix.FIXString, fresh P.quickfix.FIXBoolean, fresh P.quickfix.FIXInt, fresh H.quickfix.FIXUTCTimestamp.*, fresh H.time.Time.*, fresh P.string, fresh E.any, fresh P.sl.uint8
 //@   requires fmvals(m)
 //@   ensures @missing !has(m.tagLookup, tag) ==> err != nil
 
@@ -458,3 +465,59 @@ package quickfix
 //@   loop 1 invariant @vals forall k Tag :: seen(k) && has(m.tagLookup, k) ==> len(to.tagLookup[k]) == 1 && to.tagLookup[k][0].tag == m.tagLookup[k][0].tag && to.tagLookup[k][0].value == m.tagLookup[k][0].value && to.tagLookup[k][0].bytes == m.tagLookup[k][0].bytes
 //@   loop 1 invariant @stable to.tagLookup != nil && to.tagLookup != m.tagLookup && fresh(to.tagLookup) && m.tagLookup == old(m.tagLookup) && m.tags == old(m.tags) && fmvals(m)
 //@   loop 1 invariant @src forall t Tag :: (has(m.tagLookup, t) <==> old(has(m.tagLookup, t))) && m.tagLookup[t] == old(m.tagLookup[t])
+
+// ---- tag.go / message.go: section classification ------------------------------------------------
+//@ spec istrailertag(t Tag) bool = t == 93 || t == 89 || t == 10
+//@ spec isheadertag(t Tag) bool = t == 8 || t == 9 || t == 35 || t == 49 || t == 56 || t == 115 || t == 128 || t == 90 || t == 34 || t == 50 || t == 142 || t == 57 || t == 143 || t == 116 || t == 144 || t == 129 || t == 145 || t == 43 || t == 97 || t == 52 || t == 122 || t == 212 || t == 213 || t == 347 || t == 369 || t == 370 || t == 1128 || t == 1129 || t == 627 || t == 1156 || t == 91 || t == 628 || t == 629 || t == 630
+
+//@ func (t Tag) IsTrailer [C11]
+//@   pure
+//@   ensures result <==> istrailertag(t)
+//@ func (t Tag) IsHeader [C11]
+//@   pure
+//@   ensures result <==> isheadertag(t)
+
+// dictionary well-formedness as far as the message parser dereferences it (established by the builder, C19)
+//@ spec ddhdr(d *datadictionary.DataDictionary) bool = d != nil ==> d.Header != nil && d.Trailer != nil
+
+//@ func isHeaderField [C09,C11]
+//@   pure
+//@   requires ddhdr(dataDict)
+//@   ensures @table result <==> (isheadertag(tag) || (dataDict != nil && has(dataDict.Header.Fields, tag)))
+//@ func isTrailerField [C09,C11]
+//@   pure
+//@   requires ddhdr(dataDict)
+//@   ensures @table result <==> (istrailertag(tag) || (dataDict != nil && has(dataDict.Trailer.Fields, tag)))
+
+// ---- dictionary well-formedness as far as message parsing and validation dereference it --------
+// (a global invariant of the immutable dictionary objects; established by the builder, see datadictionary)
+//@ spec ddfields() bool = forall fd *datadictionary.FieldDef :: fd != nil ==> fd.FieldType != nil && (forall i :: 0 <= i && i < len(fd.Fields) ==> fd.Fields[i] != nil)
+//@ spec ddmsgs() bool = forall md *datadictionary.MessageDef :: md != nil ==> (forall k int :: has(md.Fields, k) ==> md.Fields[k] != nil)
+//@ spec dddict(d *datadictionary.DataDictionary) bool = d != nil ==> d.Header != nil && d.Trailer != nil && (forall s string :: has(d.Messages, s) ==> d.Messages[s] != nil)
+//@ spec ddwf(d *datadictionary.DataDictionary) bool = ddfields() && ddmsgs() && dddict(d)
+
+//@ func isGroupMember [C09]
+//@   pure
+//@   requires ddfields() && (forall i :: 0 <= i && i < len(fields) ==> fields[i] != nil)
+//@   loop 1 decreases len(fields) - $i
+
+//@ func (m *Message) msgTypeNoLock [C09,C11]
+//@   requires fmvals(m.Header.FieldMap)
+//@   ensures @ok (result1 == nil) <==> has(m.Header.tagLookup, 35)
+//@   ensures @value result1 == nil ==> result0 == string(m.Header.tagLookup[35][0].value)
+//@   modifies fresh H.quickfix.messageRejectError.*, fresh P.quickfix.Tag, fresh P.quickfix.FIXString
+
+//@ func isNumInGroupField [C09]
+//@   requires msg != nil && fmvals(msg.Header.FieldMap) && ddwf(appDataDictionary)
+//@   modifies fresh MH.int.ptr.datadictionary.FieldDef, fresh MV.int.ptr.datadictionary.FieldDef, fresh H.quickfix.messageRejectError.*, fresh P.quickfix.Tag, fresh P.quickfix.FIXString
+//@   loop 1 invariant @vals forall k int :: has(fields, k) ==> fields[k] != nil
+//@   loop 2 invariant @newvals forall k int :: has(newFields, k) ==> newFields[k] != nil
+//@   loop 2 invariant @keep forall k int :: has(fields, k) ==> fields[k] != nil
+
+//@ func getGroupFields [C09]
+//@   requires msg != nil && fmvals(msg.Header.FieldMap) && ddwf(appDataDictionary)
+//@   ensures @nonnil forall i :: 0 <= i && i < len(fields) ==> fields[i] != nil
+//@   modifies fresh MH.int.ptr.datadictionary.FieldDef, fresh MV.int.ptr.datadictionary.FieldDef, fresh H.quickfix.messageRejectError.*, fresh P.quickfix.Tag, fresh P.quickfix.FIXString
+//@   loop 1 invariant @vals forall k int :: has(fields, k) ==> fields[k] != nil
+//@   loop 2 invariant @newvals forall k int :: has(newFields, k) ==> newFields[k] != nil
+//@   loop 2 invariant @keep forall k int :: has(fields, k) ==> fields[k] != nil
